@@ -3,7 +3,8 @@
   Property theorems only; helper lemmas live in MpirProofs/Lemmas/Swar.lean.  `mapB f 8 x` is Σ_{i<8} f(byte_i x)·256^i
   (the word whose byte i is f of byte i of x); `n4 b` holds in its two nibbles the bit counts of the two nibbles of b.
 
-  PROVED here: the per-limb reduction (popcount.c:53-55, shared by the block and the tail loop) for EVERY 64-bit limb.
+  PROVED here: the per-limb reduction (popcount.c:53-55, shared by the block and the tail loop) for EVERY 64-bit limb:
+  field-wise action, no overflow between fields, fields add up to the limb's bit count.
   NOT yet proved (run only, see TRUSTED of tools/props/c10_swar.py): block_eq, tail_eq, popcount_swar_eq, hamdist_swar_eq.
 -/
 import MpirProofs.Lemmas.Swar
@@ -16,6 +17,12 @@ open Mpir
     step wraps modulo 2^64 and no field overflows into its neighbour. -/
 theorem limb4_fields (u : Nat) (hu : u < B) : limb4 u = mapB n4 8 u := limb4_bytes u hu
 example : limb4 0xffff00000f0100f3 = 0x4444000004010042 := by decide
+
+/-- popcount.c:53-55 computes the bit count of the limb, spread over its sixteen 4-bit fields: for every limb u < 2^64
+    the fields of `limb4 u` (two per byte: b % 16 and b / 16, summed over the 8 bytes) add up to `Bits.popc u`, the
+    per-limb bit count that the "by meaning" model Bits.mpn_popcount of part c10_bits sums. -/
+theorem limb4_popc (u : Nat) (hu : u < B) : sumB (fun b => b % 16 + b / 16) 8 (limb4 u) = Bits.popc u := limb4_sum u hu
+example : sumB (fun b => b % 16 + b / 16) 8 (limb4 0xffff00000f0100f3) = 27 ∧ Bits.popc 0xffff00000f0100f3 = 27 := by decide
 
 /-- the range comment "4 0-4" of popcount.c:55: every 4-bit field of `n4 b` is at most 4, and the two fields add up to
     the bit count of the byte. -/
